@@ -127,7 +127,7 @@ Qed.
 Fixpoint lits_neutral (e : expr) : bool :=
   match e with
   | EStr t => neutral t
-  | EGroup x | EUnary x | EItoa x => lits_neutral x
+  | EGroup x | EUnary x | EItoa x | ELen x => lits_neutral x
   | EBinary l _ r | ECompare l _ r | ELogical l _ r => lits_neutral l && lits_neutral r
   | _ => true
   end.
@@ -200,6 +200,11 @@ Proof.
     cbn [forallb]. rewrite (helper_assign_atom _ _ _ _ H3). reflexivity.
   - inversion Ht; subst. cbn [forallb]. unfold bash_conv. cbn [cv_var_evaluation]. rewrite (Hv v0 (or_introl eq_refl)). reflexivity.
   - exact (IHe Hp used s vs s' Ht Hl Hv).
+  - apply andb_true_iff in Hp as [Hp Hstr]. mb Ht as vx s1 H1 H2. rewrite Hstr in H2. mb H2 as a s2 H2 H3. mr H3. ml H2.
+    unfold bash_conv in H2. cbn [cv_string_len] in H2. unfold next_helper in H2. cbn zeta in H2. inversion H2; subst.
+    cbn [forallb]. rewrite andb_true_r. apply (helper_fine {| b_start := b_start s1; b_code := b_code s1; b_var_counter := S (b_var_counter s1);
+      b_for_counter := b_for_counter s1; b_fors := b_fors s1; b_funcs := b_funcs s1; b_func_counter := b_func_counter s1;
+      b_sah := b_sah s1; b_sch := b_sch s1; b_ssh := b_ssh s1 |} (b_var_counter s1)).
   - mb Ht as vx s1 H1 H2. mr H2. pose proof (IHe Hp true s vx s' H1 Hl Hv) as Hx.
     cbn [forallb]. destruct vx as [|a0 r0]; [reflexivity|]. cbn [first_value]. simpl in Hx. apply andb_true_iff in Hx as [Ha _]. rewrite Ha. reflexivity.
 Qed.
